@@ -502,9 +502,11 @@ def run(ctx):
         if rcm != 0: ctx.signal("K", "modeldriver", "model driver exited with %s: %s" % (rcm, errm[-400:]))
         for c in seq_cases: judge_seq(ctx, c, impl, model)
     # distributed, one launch per (P, tap); PPN divides P for the node-aware runs
-    PPN = {1: "1", 2: "2", 3: "3", 4: "2"}
     for P in (1, 2, 3, 4):
         for tap in (0, 1):
+            # one node, or several nodes (one rank per node / two per node)
+            PPN = {P: ctx.rng.choice({1: ["1"], 2: ["2", "1"], 3: ["3", "1"], 4: ["2", "2", "1", "4"]}[P])}
+            ctx.count("par_P%d_ppn%s" % (P, PPN[P]))
             cs = [c for c in par_cases if c["P"] == P and c["tap"] == tap]
             if not cs: continue
             lines = [c["line"] for c in cs]
